@@ -1,6 +1,7 @@
 import QuantemModel.Lemmas.AberrationPolar
 import QuantemModel.Lemmas.AberrationAlias
 import QuantemModel.Lemmas.AberrationGrad
+import QuantemModel.Lemmas.AberrationGuard
 /-!
 C12 — one aberration surface across polar, Cartesian, gradient and fitted forms.
 Only property theorems and non-vacuity examples live here.  Everything named
@@ -52,6 +53,86 @@ theorem guard_sound (α φ lam : ℝ) (c : String → ℝ) :
     aberr_unfold
     num_real
     simp [h]
+
+/-- **guards are transparent** (the guards of the source, translated faithfully as `…_guarded` with a presence
+predicate, against the unguarded sums all other theorems are about): for EVERY set of present keys, as long as
+absent keys read 0 (dict `.get(k, 0.0)` semantics), surface, polar gradients and Cartesian gradients with their
+`if any(k in coefs …)` guards equal the unguarded ones.  A guard tuple that misses a key its block reads
+(e.g. C56/phi56 dropped from the fifth-order guard) makes this statement false of the translated source. -/
+theorem guards_transparent (α φ lam : ℝ) (c : String → ℝ) (present : String → Bool)
+    (hc : ∀ k, present k = false → c k = 0) :
+    aberration_surface_guarded α φ lam c present = aberration_surface α φ lam c ∧
+    aberration_surface_polar_gradients_guarded α φ c present = aberration_surface_polar_gradients α φ c ∧
+    aberration_surface_cartesian_gradients_guarded α φ c present = aberration_surface_cartesian_gradients α φ c := by
+  obtain ⟨s1, s2, s3, s4, s5, g1, g2, g3, g4, g5⟩ := guard_sound α φ lam c
+  simp only [aberration_surface_guards, aberration_surface_polar_gradients_guards, List.getD_cons_zero,
+    List.getD_cons_succ] at s1 s2 s3 s4 s5 g1 g2 g3 g4 g5
+  have hp : aberration_surface_polar_gradients_guarded α φ c present = aberration_surface_polar_gradients α φ c := by
+    simp only [aberration_surface_polar_gradients_guarded, aberration_surface_polar_gradients]
+    rw [guardAdd_eq present c hc _ _ _ (fun h => (g1 h).1), guardAdd_eq present c hc _ _ _ (fun h => (g2 h).1),
+      guardAdd_eq present c hc _ _ _ (fun h => (g3 h).1), guardAdd_eq present c hc _ _ _ (fun h => (g4 h).1),
+      guardAdd_eq present c hc _ _ _ (fun h => (g5 h).1),
+      guardSub_eq present c hc _ _ _ (fun h => (g1 h).2), guardSub_eq present c hc _ _ _ (fun h => (g2 h).2),
+      guardSub_eq present c hc _ _ _ (fun h => (g3 h).2), guardSub_eq present c hc _ _ _ (fun h => (g4 h).2),
+      guardSub_eq present c hc _ _ _ (fun h => (g5 h).2)]
+  refine ⟨?_, hp, ?_⟩
+  · simp only [aberration_surface_guarded, aberration_surface]
+    rw [guardAdd_eq present c hc _ _ _ s1, guardAdd_eq present c hc _ _ _ s2, guardAdd_eq present c hc _ _ _ s3,
+      guardAdd_eq present c hc _ _ _ s4, guardAdd_eq present c hc _ _ _ s5]
+  · simp only [aberration_surface_cartesian_gradients_guarded, aberration_surface_cartesian_gradients, hp]
+
+/-- **guard completeness** (finite, by `decide`): each of the 25 polar symbols is listed in the guard tuple of
+its own block, in the surface AND in the gradient function, and the two functions use the same tuples. -/
+theorem guard_complete :
+    (POLAR_SYMBOLS.all fun s =>
+      (List.zip aberration_surface_guards aberration_surface_polar_gradients_guards).any
+        fun g => g.1.contains s && g.2.contains s) = true ∧
+    aberration_surface_guards = aberration_surface_polar_gradients_guards := by decide
+
+/-- **every symbol individually** (all 14 table entries = 25 symbols, fifth order included): on the coefficient
+set that holds only the entry (C_nm, φ_nm), the translated surface is (2π/λ)·α^{n+1}/(n+1)·C cos(m(φ−φ_nm)), the
+translated radial gradient is 2π·α^n·C cos(m(φ−φ_nm)) and α × the translated azimuthal gradient is
+−2π·α^{n+1}/(n+1)·m·C sin(m(φ−φ_nm)). -/
+theorem single_symbol :
+    ∀ t ∈ table, ∀ (C p0 α φ lam : ℝ),
+      aberration_surface α φ lam (single t C p0)
+        = 2 * Real.pi / lam * term t.1 t.2.1 C (if t.2.1 = 0 then 0 else p0) α φ ∧
+      (aberration_surface_polar_gradients α φ (single t C p0)).1
+        = 2 * Real.pi * termDAlpha t.1 t.2.1 C (if t.2.1 = 0 then 0 else p0) α φ ∧
+      α * (aberration_surface_polar_gradients α φ (single t C p0)).2
+        = 2 * Real.pi * termDPhi t.1 t.2.1 C (if t.2.1 = 0 then 0 else p0) α φ :=
+  single_symbol_lemma
+
+/-- **every symbol contributes to BOTH surface and gradient**: a non-zero amplitude alone already makes the
+translated surface and the translated radial gradient non-zero at some (α, φ); for m ≠ 0 the azimuthal gradient
+too (so no symbol of the 25 is silently dropped from either function). -/
+theorem every_symbol_contributes :
+    ∀ t ∈ table, ∀ (C p0 : ℝ), C ≠ 0 →
+      (∃ α φ, aberration_surface α φ 1 (single t C p0) ≠ 0 ∧
+        (aberration_surface_polar_gradients α φ (single t C p0)).1 ≠ 0) ∧
+      (t.2.1 ≠ 0 → ∃ α φ, (aberration_surface_polar_gradients α φ (single t C p0)).2 ≠ 0) :=
+  every_symbol_contributes_lemma
+
+/-- **column order of the Cartesian basis for an ARBITRARY label list** (the loop of
+`aberration_surface_cartesian_basis` translated with the label list dynamic): for every list of labels from the
+25-label table — any order, repetitions allowed — the result has one column per label and column i is the
+basis function of labels[i]; a label outside the table makes the model return `none`. -/
+theorem basis_column_order (α φ lam : ℝ) (labels : List String) :
+    ((∀ l ∈ labels, l ∈ CARTESIAN_LABELS) →
+      aberration_surface_cartesian_basis_list α φ lam labels = some (labels.map (basisCol α φ lam))) ∧
+    ((∃ l ∈ labels, l ∉ CARTESIAN_LABELS) → aberration_surface_cartesian_basis_list α φ lam labels = none) ∧
+    aberration_surface_cartesian_basis_list α φ lam CARTESIAN_LABELS
+      = some (aberration_surface_cartesian_basis α φ lam) := by
+  refine ⟨fun h => ?_, fun h => ?_, ?_⟩
+  · simp only [aberration_surface_cartesian_basis_list]
+    rw [basis_fold_known α φ lam labels [] h]; simp
+  · simp only [aberration_surface_cartesian_basis_list]
+    exact basis_fold_unknown α φ lam labels [] h
+  · simp only [aberration_surface_cartesian_basis_list]
+    rw [basis_fold_known α φ lam CARTESIAN_LABELS [] (fun l h => h)]
+    simp only [List.nil_append, Option.some.injEq]
+    simp only [CARTESIAN_LABELS, List.map, basisCol, colOf, aberration_surface_cartesian_basis, String.reduceEq,
+      if_true, if_false]
 
 /-- **basis expansion**: Σ_l cart_l · basis_l(α,φ) with `cart = polar_to_cartesian(polar)` over the
 25 labels is the same function χ(α,φ) as the polar form, for all values. -/
@@ -274,6 +355,29 @@ theorem fit_roundtrip (pix : List (ℝ × ℝ)) (lam : ℝ) (theta : Option ℝ)
       = (c "C10", c "C12", c "phi12", theta.getD 0) :=
   fit_roundtrip_lemma pix lam theta c hz hrank hθ1 hθ2 hC hdef h1 h2
 
+/-- **the translated `_torch_polar` computes the polar decomposition the model uses — the RIGHT factor**:
+for any svd routine that meets its specification at `m` (m = U·diag(S)·Vh, U and Vh orthogonal, S > 0), the pair
+the source builds, `(U @ Vh, Vh.T @ diag(S) @ Vh)`, equals the closed form `polar2 m` (hence, by
+`polar_decomposition_unique`, THE polar decomposition m = U'·P').  Returning the left factor U·S·Uᵀ instead makes
+this statement false of the translated source. -/
+theorem torch_polar_is_polar (svd : M2 ℝ → M2 ℝ × (ℝ × ℝ) × M2 ℝ) (m : M2 ℝ) (h : IsSVD svd m) :
+    torch_polar svd m = polar2 m := torch_polar_eq_polar2 svd m h
+
+/-- **fit round trip through the translated `_torch_polar`**: `fit_roundtrip` with the polar step taken from the
+translated source on top of ANY svd routine meeting its specification on non-singular matrices — every rotation
+|θ| < π/2 TOGETHER with every non-zero astigmatism C12 > 0, |C10| > C12, φ12 ∈ (−π/2, π/2]. -/
+theorem fit_roundtrip_translated_polar (svd : M2 ℝ → M2 ℝ × (ℝ × ℝ) × M2 ℝ)
+    (hsvd : ∀ m, M2.det m ≠ 0 → IsSVD svd m)
+    (pix : List (ℝ × ℝ)) (lam : ℝ) (theta : Option ℝ) (c : String → ℝ)
+    (hz : ∀ k ∈ POLAR_SYMBOLS.drop 3, c k = 0)
+    (hrank : FullRank (pix.map fun k => (k.1 * lam, k.2 * lam)))
+    (hθ1 : -Real.pi / 2 < theta.getD 0) (hθ2 : theta.getD 0 < Real.pi / 2)
+    (hC : 0 < c "C12") (hdef : c "C12" < |c "C10"|)
+    (h1 : -Real.pi / 2 < c "phi12") (h2 : c "phi12" ≤ Real.pi / 2) :
+    fitTranslated svd (pix.map fun k => (k.1 * lam, k.2 * lam)) (pix.map fun k => lateralShift k.1 k.2 lam theta c)
+      = (c "C10", c "C12", c "phi12", theta.getD 0) :=
+  fit_roundtrip_svd_lemma svd hsvd pix lam theta c hz hrank hθ1 hθ2 hC hdef h1 h2
+
 /-- **the remainder model is exact where it is used**: on `[-y, 2y)` the model's `rem1` is Python/torch
 `remainder(x, y) = x − ⌊x/y⌋·y`, and both arguments the fit passes (`rot + π` and `rot`, with
 `rot = −atan2(U₁₀, U₀₀)`) lie in `[-2π, 4π)` for every matrix `U`. -/
@@ -307,6 +411,21 @@ example : FullRank [(1, 0), (0, 1), (1, 1)] := by
   have h2 := h (0, 1) (by simp)
   simp only [mul_one, mul_zero, add_zero, zero_add] at h1 h2
   exact ⟨h1, h2⟩
+
+/-- the hypothesis of `guards_transparent` is satisfiable with absent keys and a non-trivial coefficient set -/
+example : ∀ k, (fun k => k = "C56" || k = "phi56") k = false →
+    (fun k => if k = "C56" then (3 : ℝ) else if k = "phi56" then 0.2 else 0) k = 0 := by
+  intro k h
+  simp only [Bool.or_eq_false_iff, decide_eq_false_iff_not] at h
+  simp [h.1, h.2]
+
+/-- an svd specification is satisfiable: the identity has the SVD (1, (1,1), 1) -/
+example : IsSVD (fun _ => (I2, ((1 : ℝ), (1 : ℝ)), I2)) I2 := by
+  refine ⟨?_, ?_, ?_, ?_, by norm_num, by norm_num⟩ <;>
+    simp only [M2.mul, M2.transpose, M2.diag, I2] <;> (apply M2.ext' <;> simp)
+
+/-- the column-order theorem speaks about interleaved orders too -/
+example : ∀ l ∈ ["C10", "C30", "C50", "C12_a", "C21_a", "C12_a"], l ∈ CARTESIAN_LABELS := by decide
 
 /-- the alias theorems are not vacuous: the model accepts `{"defocus": 100}` in all three places -/
 example : ∃ r, standardize POLAR_SYMBOLS POLAR_ALIASES ([] ++ ("defocus", some (100 : ℝ)) :: []) = .ok r :=
